@@ -523,7 +523,7 @@ class FuncCanon(object):
         changed = False
         for blk in _all_blocks(self.fn):
             top = blk is self.fn.body
-            if self.star(blk) or self.unroll(blk) or self.lockwith(blk) or self.flagloop(blk) or self.thread(blk) or self.deadstore(blk) or self.kw(blk) or self.split(blk) or self.retsplit(blk) or self.forelse(blk) or self.rot(blk) or self.brk(blk, top) or self.wtop(blk) or self.ifs(blk) or self.sink(blk) or self.unpack(blk) or self.fwd(blk):
+            if self.star(blk) or self.tuplepush(blk) or self.unroll(blk) or self.lockwith(blk) or self.flagloop(blk) or self.thread(blk) or self.deadstore(blk) or self.kw(blk) or self.split(blk) or self.retsplit(blk) or self.forelse(blk) or self.rot(blk) or self.brk(blk, top) or self.wtop(blk) or self.ifs(blk) or self.sink(blk) or self.unpack(blk) or self.fwd(blk):
                 return True
         return changed
 
@@ -777,6 +777,49 @@ class FuncCanon(object):
             return True
         return False
 
+    # -- TUPLEPUSH -------------------------------------------------------------------------------------------------
+    def tuplepush(self, blk):
+        """`v = (x, y)` at several places, read only by `a, b = v` : the unpacking is pushed to every assignment
+        (`a = x; b = y`) and disappears.  v is a local whose every store is a tuple display of that arity."""
+        for i, st in enumerate(blk):
+            if not (isinstance(st, ast.Assign) and len(st.targets) == 1 and isinstance(st.targets[0], ast.Tuple) and isinstance(st.value, ast.Name)):
+                continue
+            v = st.value.id
+            tg = st.targets[0].elts
+            if v in self.params or v in self.captured or len(self.loads.get(v, ())) != 1 or not all(isinstance(t, ast.Name) for t in tg):
+                continue
+            if len(set(t.id for t in tg)) != len(tg):
+                continue
+            stores = self.stores.get(v, [])
+            if len(stores) < 1:
+                continue
+            sites = []
+            ok = True
+            for b2 in _all_blocks(self.fn):
+                for k, s2 in enumerate(b2):
+                    if isinstance(s2, ast.Assign) and any(isinstance(t, ast.Name) and t.id == v for t in s2.targets):
+                        if not (len(s2.targets) == 1 and isinstance(s2.value, ast.Tuple) and len(s2.value.elts) == len(tg) and not any(isinstance(e, ast.Starred) for e in s2.value.elts)):
+                            ok = False
+                        # elements must not read the targets being assigned (parallel -> sequential)
+                        names = {t.id for t in tg}
+                        for idx_e, e in enumerate(s2.value.elts if isinstance(s2.value, ast.Tuple) else []):
+                            if idx_e > 0 and any(isinstance(n, ast.Name) and n.id in {t.id for t in tg[:idx_e]} for n in ast.walk(e)):
+                                ok = False
+                        sites.append((b2, k))
+            if not ok or len(sites) != len(stores):
+                continue
+            # the targets must not be otherwise live between the stores and the unpacking: require that they are not read before i in this block's later part
+            for b2, k in sites:
+                s2 = b2[k]
+                new = [ast.copy_location(ast.Assign(targets=[ast.Name(id=t.id, ctx=ast.Store())], value=e), s2) for t, e in zip(tg, s2.value.elts)]
+                for n_ in new:
+                    ast.fix_missing_locations(n_)
+                b2[k:k + 1] = new
+            blk.remove(st)
+            self.bump("TUPLEPUSH")
+            return True
+        return False
+
     # -- THREAD ----------------------------------------------------------------------------------------------------
     def thread(self, blk):
         """Jump threading through a test on a value that every exit of the preceding loop has just set to a literal:
@@ -817,11 +860,22 @@ class FuncCanon(object):
                 continue
             arrivals = []       # (owner list, index of the assignment, verdict)
             ok = True
+            def last_assign(owner, k):
+                """the assignment to v among the plain name assignments directly before position k"""
+                j = k - 1
+                while j >= 0 and isinstance(owner[j], ast.Assign) and len(owner[j].targets) == 1 and isinstance(owner[j].targets[0], ast.Name):
+                    if owner[j].targets[0].id == v:
+                        return owner[j]
+                    if any(isinstance(n, ast.Name) and n.id == v for n in ast.walk(owner[j].value)):
+                        return None
+                    j -= 1
+                return None
             for owner, k in sites:
-                if k == 0 or not (isinstance(owner[k - 1], ast.Assign) and len(owner[k - 1].targets) == 1 and isinstance(owner[k - 1].targets[0], ast.Name) and owner[k - 1].targets[0].id == v):
+                la = last_assign(owner, k)
+                if la is None:
                     ok = False
                     break
-                d = decide(owner[k - 1].value)
+                d = decide(la.value)
                 if d is None:
                     ok = False
                     break
@@ -835,8 +889,8 @@ class FuncCanon(object):
                     if not lp.orelse:
                         continue          # the loop can end normally with an unknown v
                 else:
-                    last = lp.orelse[-1]
-                    if not (isinstance(last, ast.Assign) and len(last.targets) == 1 and isinstance(last.targets[0], ast.Name) and last.targets[0].id == v):
+                    last = last_assign(lp.orelse, len(lp.orelse))
+                    if last is None:
                         continue
                     else_verdict = decide(last.value)
                     if else_verdict is None:
